@@ -458,7 +458,7 @@ def run(ctx):
     exes = {'rl': build(ctx, False), 'al': build(ctx, True)}
     ctx.log('drivers built:', exes['rl'], exes['al'])
     pool = concurrent.futures.ThreadPoolExecutor(max_workers=vlib.NCPU)        # explorers
-    bg = concurrent.futures.ThreadPoolExecutor(max_workers=4)                  # model checks and edge dumps, side by side
+    bg = concurrent.futures.ThreadPoolExecutor(max_workers=3)                  # model checks and edge dumps, side by side
 
     # 1. design step: the P-layer model-checked standalone (the guards maintain the invariants of the statement) and the
     #    I-layer with its ghost invariants (spurious lock failures on)
